@@ -215,6 +215,11 @@ def run(ctx):
         if r != "ok":
             ctx.fail("vm-control-data-continuation:" + r.split(":")[0].split(" ")[0], r, {"control_data_full": i})
             break
+    for i in range(ctx.n(60, 600)):
+        r = core.call_impl(lambda _: directed_case(i), None)
+        if r != "ok":
+            ctx.fail("vm-stack-directed:" + r.split(":")[0], r, {"directed": i})
+            break
     # known asymmetry: VmControlData (vmc_std / vmc_envelope)
     r = core.call_impl(lambda _: control_data_case(), None)
     if r != "ok":
@@ -295,6 +300,54 @@ def control_data_full_case(seed):
     return "ok"
 
 
+def directed_case(seed):
+    """hand-built stack encodings and failing serialisations (implementation only)"""
+    import random
+    from pytoniq_core.boc.builder import Builder
+    from pytoniq_core.tlb.vm_stack import VmStack, VmTuple
+    r = random.Random(seed)
+    # 1. a slice value that denotes a WINDOW of its cell: vm_stk_slice#04 cell:^Cell st_bits end_bits st_ref end_ref
+    bits = cells.rand_bits(r, r.choice([16, 40, 100]))
+    kids = [Builder().store_uint(i, 8).end_cell() for i in range(r.choice([0, 2, 3, 4]))]
+    b = Builder().store_bits(bits)
+    for k in kids:
+        b.store_ref(k)
+    cell = b.end_cell()
+    sb = r.randrange(0, len(bits))
+    eb = r.randrange(sb, len(bits) + 1)
+    sr = r.randrange(0, len(kids) + 1)
+    er = r.randrange(sr, len(kids) + 1)
+    entry = (Builder().store_ref(Builder().end_cell()).store_uint(4, 8).store_ref(cell)
+             .store_uint(sb, 10).store_uint(eb, 10).store_uint(sr, 3).store_uint(er, 3).end_cell())
+    st = Builder().store_uint(1, 24).store_cell(entry).end_cell()
+    got = VmStack.deserialize(st.begin_parse())
+    if len(got) != 1 or got[0].bits.to01() != bits[sb:eb] or [x.hash for x in got[0].refs[got[0].ref_offset:]] != [k.hash for k in kids[sr:er]]:
+        return (f"slice-window: st_bits={sb} end_bits={eb} st_ref={sr} end_ref={er} of a {len(bits)}-bit/{len(kids)}-ref cell parsed as "
+                f"{len(got[0].bits) if got else None} bits")
+    # 2. parsed empty tuples are independent values
+    two = VmStack.deserialize(VmStack.serialize([VmTuple([]), VmTuple([])]).begin_parse())
+    two[0].list.append(7)
+    if len(two[1].list) != 0:
+        return "empty-tuples: two parsed empty tuples share one list"
+    later = VmStack.deserialize(VmStack.serialize([VmTuple([])]).begin_parse())
+    if len(later[0].list) != 0:
+        return "empty-tuples: an empty tuple parsed later carries what the caller appended to an earlier one"
+    # 3. a serialisation that is refused leaves the caller's values as they were
+    bad = r.choice([1 << 257, -(1 << 257), 1 << 300])
+    vals = [1, VmTuple([2, VmTuple([3, bad]), 4]), 5] if seed % 2 else [1, 2, bad, 4]
+    shape = repr([(type(v).__name__, len(v.list) if isinstance(v, VmTuple) else v) for v in vals])
+    try:
+        VmStack.serialize(vals)
+        return "refused-serialisation: an integer outside the 257-bit range was serialised"
+    except Exception:
+        pass
+    if repr([(type(v).__name__, len(v.list) if isinstance(v, VmTuple) else v) for v in vals]) != shape or len(vals) not in (3, 4):
+        return "refused-serialisation: the caller's list was changed by a serialisation that failed"
+    if seed % 2 and (len(vals[1].list) != 3 or len(vals[1].list[1].list) != 2):
+        return "refused-serialisation: the caller's tuple was changed by a serialisation that failed"
+    return "ok"
+
+
 def control_data_case():
     from pytoniq_core.tlb.vm_stack import VmStack, VmCont, VmControlData
     cd = VmControlData("vm_ctl_data", nargs=0, stack=None, save=None, cp=0)
@@ -309,6 +362,9 @@ def control_data_case():
 
 def replay(ctx, obj):
     c = obj["case"]
+    if "directed" in c:
+        r = core.call_impl(lambda _: directed_case(c["directed"]), None)
+        return None if r == "ok" else r
     if "control_data_full" in c:
         r = core.call_impl(lambda _: control_data_full_case(c["control_data_full"]), None)
         return None if r == "ok" else r
